@@ -620,6 +620,97 @@ pub fn native_subjects(prop: &str) -> Vec<Subject> {
             sync_check: false,
         });
     }
+    // Debug and bookkeeping blocks: strings per sample, prints, files per
+    // packet, a digest on drop.
+    {
+        let data: Vec<u8> = (0..9u8).collect();
+        let mk = |variant: &str, build: crate::envcheck::BuildFn| Subject {
+            block: variant.split(' ').next().unwrap().to_string(),
+            variant: variant.to_string(),
+            quantum: 2,
+            build,
+            starts: native_starts(CU8, CU8),
+            ref_pages: 1,
+            spec: None,
+            infinite_source: false,
+            horizon: 0,
+            no_retire_check: false,
+            warmup: vec![],
+            horizon_delta: 0,
+            prefix_spec: false,
+            sync_check: false,
+        };
+        let (d1, t1) = (data.clone(), tags.clone());
+        v.push(mk(
+            "DebugFilter 9 bytes",
+            Box::new(move |st| {
+                verif::clear_stream_specs();
+                let (ip, r) = sin(st, d1.clone(), t1.clone());
+                let (b, o) = DebugFilter::new(r);
+                Instance {
+                    block: bx(b),
+                    ins: vec![ip],
+                    outs: vec![pout_with(o, |s: &String| s.bytes().map(|b| b as u64).collect())],
+                }
+            }),
+        ));
+        let (d2, t2) = (data.clone(), tags.clone());
+        v.push(mk(
+            "DebugSink 9 bytes",
+            Box::new(move |st| {
+                verif::clear_stream_specs();
+                let (ip, r) = sin(st, d2.clone(), t2.clone());
+                Instance {
+                    block: bx(DebugSink::new(r)),
+                    ins: vec![ip],
+                    outs: vec![],
+                }
+            }),
+        ));
+        let pk: Vec<Vec<u8>> = vec![vec![1, 2, 3], vec![], vec![4], vec![5, 6]];
+        let pk1 = pk.clone();
+        v.push(mk(
+            "DebugSinkNoCopy 4 packets",
+            Box::new(move |_st| {
+                verif::clear_stream_specs();
+                let (ip, r) = pin(pk1.clone());
+                Instance {
+                    block: bx(DebugSinkNoCopy::new(r)),
+                    ins: vec![ip],
+                    outs: vec![],
+                }
+            }),
+        ));
+        let pk2 = pk.clone();
+        v.push(mk(
+            "PduWriter 4 packets",
+            Box::new(move |_st| {
+                verif::clear_stream_specs();
+                let (ip, r) = pin(pk2.clone());
+                let dir = std::env::temp_dir().join(format!("verif-pdu-{}", std::process::id()));
+                let _ = std::fs::create_dir_all(&dir);
+                Instance {
+                    block: bx(PduWriter::<u8>::new(r, dir)),
+                    ins: vec![ip],
+                    outs: vec![],
+                }
+            }),
+        ));
+        let d3 = data.clone();
+        v.push(mk(
+            "Hasher 9 bytes",
+            Box::new(move |st| {
+                verif::clear_stream_specs();
+                let (ip, r) = sin(st, d3.clone(), vec![]);
+                let (b, o) = sha512(r);
+                Instance {
+                    block: bx(b),
+                    ins: vec![ip],
+                    outs: vec![pout(o)],
+                }
+            }),
+        ));
+    }
     // BurstTagger: data stream plus a float trigger stream.
     {
         let data: Vec<u8> = (0..12u8).collect();
